@@ -39,6 +39,9 @@ def run(ctx):
     from ..report import BorrowedCtx
     from .C08 import rule_f as _boxes
     ctx.guard(_boxes, BorrowedCtx(ctx, {'C08.f': 'C09.f'}), ix)
+    # a region drawn on pixel axes is evaluated through a shortcut that is only right for the dataset that owns those axes
+    from .C04 import rule_f as _pixel_shortcut
+    ctx.guard(_pixel_shortcut, BorrowedCtx(ctx, {'C04.f': 'C09.h'}), ix)
 
 
 # ---------------------------------------------------------------------------------------
